@@ -52,6 +52,8 @@ Definition dispatch_file (toks : list (list N)) : option (list N * list N) :=
       if is "cli" op then    (* cli <subcommand> <settings> <container> <recs> <alt recs> *)
         Some (m_cli sz (parse_settings threads) (parse_hex_list container) (parse_hex_list recs),
               s_cli sz (parse_settings threads) (parse_hex_list container) (parse_hex_list recs))
+      else if is "csched" op then   (* csched k W limit sched recs *)
+        let r := m_csched (parse_nat sz) (parse_nat threads) (parse_dec mem) (parse_nats container) (parse_hex_list recs) in Some (r, r)
       else if is "cgrfile" op then
         let rs := parse_hex_list recs in Some (m_cgrfile (parse_Z sz) rs, s_cgrfile (parse_Z sz) rs)
       else if is "s2m" op then   (* s2m w m threads container recs *)
